@@ -210,4 +210,49 @@ theorem firstOcc_mem {P : Nat → Bool} {L a : Nat} (h : firstOcc P L = some a) 
 theorem lastOcc_mem {P : Nat → Bool} {L a : Nat} (h : lastOcc P L = some a) : a < L ∧ P a = true := by
   rw [lastOcc_some_iff] at h; exact ⟨h.1, h.2.1⟩
 
+theorem nextOcc_eq_of_prevOcc_some {P : Nat → Bool} {L p lp : Nat} (h : prevOcc P p = some lp)
+    (hp : P p = false) : nextOcc P L lp = nextOcc P L p := by
+  cases h2 : nextOcc P L p <;> chain_finish
+
+theorem firstOcc_eq_of_prevOcc_none {P : Nat → Bool} {L p : Nat} (h : prevOcc P p = none)
+    (hp : P p = false) : firstOcc P L = nextOcc P L p := by
+  cases h2 : nextOcc P L p <;> chain_finish
+
+theorem first_some_iff_last_some {P : Nat → Bool} {L : Nat} :
+    (firstOcc P L).isSome = (lastOcc P L).isSome := by
+  cases h1 : firstOcc P L <;> cases h2 : lastOcc P L <;> simp <;> chain_finish
+
+theorem first_none_of_none_none {P : Nat → Bool} {L p : Nat} (h1 : prevOcc P p = none)
+    (h2 : nextOcc P L p = none) (hp : P p = false) : firstOcc P L = none ∧ lastOcc P L = none := by
+  constructor <;> chain_finish
+
+theorem first_some_of_prev_some {P : Nat → Bool} {L p lp : Nat} (h1 : prevOcc P p = some lp) (hpL : p < L) :
+    ∃ f, firstOcc P L = some f := by
+  cases h : firstOcc P L with
+  | some f => exact ⟨f, rfl⟩
+  | none => exfalso; chain_finish
+
+theorem last_some_of_next_some {P : Nat → Bool} {L p nx : Nat} (h1 : nextOcc P L p = some nx) :
+    ∃ l, lastOcc P L = some l := by
+  cases h : lastOcc P L with
+  | some l => exact ⟨l, rfl⟩
+  | none => exfalso; chain_finish
+
+theorem last_some_of_mem {P : Nat → Bool} {L p : Nat} (hp : P p = true) (hpL : p < L) :
+    ∃ l, lastOcc P L = some l := by
+  cases h : lastOcc P L with
+  | some l => exact ⟨l, rfl⟩
+  | none => exfalso; chain_finish
+
+theorem first_some_of_mem {P : Nat → Bool} {L p : Nat} (hp : P p = true) (hpL : p < L) :
+    ∃ f, firstOcc P L = some f := by
+  cases h : firstOcc P L with
+  | some f => exact ⟨f, rfl⟩
+  | none => exfalso; chain_finish
+
+theorem upd_self_eq {P : Nat → Bool} {p : Nat} {b : Bool} (h : P p = b) : upd P p b = P := by
+  funext k; unfold upd; split
+  · subst_vars; rfl
+  · rfl
+
 end Qmc
